@@ -72,7 +72,7 @@ class Gen:
         if k < 0.4:
             return ("lit", str(r.randint(0, 999)))
         if k < 0.7:
-            return ("lit", "'" + r.choice(["s", "abc", "it''s", "x y", ""]) + "'")
+            return ("lit", "'" + r.choice(["s", "abc", "it''s", "x y", "", "\u00e9t\u00e9", "\u00fc\u00fc\u00fc\u00fc\u00fc\u00fc", "\u65e5\u672c\u8a9e\u65e5\u672c"]) + "'")
         return ("lit", r.choice(["true", "false", "nil", "TRUE", "Nil"]))
 
     def gen_primary(self, depth):
